@@ -440,6 +440,46 @@ def check_C02(ctx, unit):
             ctx.inst("E.reuse-before-map", "%s::allocate%s" % (POOL, tag), ok and okr, f.loc,
                      "_construct_slab only when the bucket has no head slab: %s; a slab that became full leaves the partial tree "
                      "and the head is recomputed: %s" % (ok, okr), f)
+        # head repair: both sites (allocate after attaching a fresh slab, free after re-inserting a full one)
+        # install the slab as head when there is no head or it lies lower — one condition, true for "no head"
+        conds = {}
+        for name in ("allocate", "free_in_slab_"):
+            for f in bn.get(name, []):
+                k = 0
+                for n in sorted(f.events(), key=lambda n: _lockey(n.loc)):
+                    w = write_of(n)
+                    if not (w and w[0] and w[0][-1] == "head_slb" and w[1] is not None and _strip_ids(canon(w[1])) == "slb"):
+                        continue
+                    k += 1
+                    # the innermost if whose then-arm contains the write
+                    node, guard = n, None
+                    pm = f.parent_map()
+                    cur = n.id
+                    while cur in pm:
+                        cur = pm[cur]
+                        x = f.node(cur)
+                        if x.kind == "IfStmt" and x.child("then") is not None and any(y.id == n.id for y in x.child("then").walk()):
+                            guard = x.child("cond")
+                            break
+                    if guard is None:
+                        conds[(name, k)] = ("<unconditional>", None, n, f)
+                        continue
+                    txt = re.sub(r"\bbkt\b", "$b", _strip_ids(canon(guard)))
+
+                    def lookup(a):
+                        p = path(a)
+                        if p and p[-1] == "head_slb":
+                            return False          # no head slab
+                        return None
+                    conds[(name, k)] = (txt, flow.eval_bool(guard, lookup), n, f)
+        texts = {v[0] for v in conds.values()}
+        for (name, k), (txt, when_nohead, n, f) in sorted(conds.items()):
+            ok = len(texts) == 1 and when_nohead is True
+            ctx.inst("E.reuse-before-map", "%s::%s: head repair #%d%s" % (POOL, name, k, tag), ok, n.loc,
+                     "installs the slab as head under %s; with no head slab the condition is %s; all sites agree: %s" % (
+                         txt, when_nohead, len(texts) == 1), f)
+        if len(conds) < 2:
+            raise AnalysisBroken("anchor vanished: head-slab repair sites (found %d)" % len(conds))
         for f in bn.get("free_in_slab_", []):
             inits = RA.local_inits(f)
             flagd = [d for d, i in inits.items() if _strip_ids(canon(i)) == "(! slb.available)"]
